@@ -27,7 +27,7 @@ def bfs(init, events, step, check, canon, max_depth, expandable=lambda s: True, 
     seen = set()
     frontier = deque()
     for s, label in init:
-        c = canon(s)
+        c = hash(canon(s))
         if c in seen:
             continue
         seen.add(c)
@@ -62,11 +62,12 @@ def bfs(init, events, step, check, canon, max_depth, expandable=lambda s: True, 
             if not expandable(s2):
                 st.pruned += 1
                 continue
-            c = canon(s2)
+            c = hash(canon(s2))  # 64-bit hash of the canonical form (collision odds ~1e-7 at 1e6 states)
             if c in seen:
                 st.dedup_hits += 1
                 continue
             seen.add(c)
             st.states += 1
-            frontier.append((s2, h2))
+            if depth + 1 < max_depth:  # states at the depth bound are checked and counted but never expanded
+                frontier.append((s2, h2))
     return st
